@@ -29,7 +29,7 @@ EXTENDS Tasks, Json, IOUtils, TLC
 
 Recs == JsonDeserialize(IOEnv.TRACE_FILE)
 
-ChunkSize == 100
+ChunkSize == 20
 NChunks == (Len(Recs) + ChunkSize - 1) \div ChunkSize
 
 VARIABLES c,               \* chunk of ChunkSize consecutive projects (0: none yet)
@@ -133,8 +133,10 @@ TNext == PickChunk \/ PickGraph \/ PickRun \/ TraceStart \/ TraceLoop \/ TraceDo
 
 \* ACCEPTANCE: until the end of the history the specification can take the next event
 Follows == i > 0 /\ ~AtEnd => ENABLED TraceEvent
-\* the diagnosis names a guard exactly when the specification refuses the event
-DiagnosisSound == i > 0 /\ ~AtEnd => ((why = "") <=> ENABLED TraceEvent)
+\* the diagnosis names a guard only when the specification refuses the event (the
+\* converse -- a refused event always has a diagnosis -- is checked by the harness on
+\* every violation of Follows)
+DiagnosisSound == i > 0 /\ ~AtEnd /\ why # "" => ~ENABLED TraceEvent
 \* a history that was followed to its end has an outcome allowed by the specification
 EndsProperly == AtEnd => result \in {"done", "loop"} /\ result = Outcome
 =============================================================================
